@@ -43,6 +43,8 @@ def _red(name):
         return lambda l: _fold(lambda a, b: a + b, l)
     if name == "max":
         return lambda l: _fold(lambda a, b: a if a >= b else b, l)
+    if name == "min":
+        return lambda l: _fold(lambda a, b: b if b < a else a, l)
     if name == "sumsq":
         return L._red_sumsq
     return None
@@ -209,6 +211,18 @@ def oracle_c02(case, out):
                 if any(not (lo <= v <= hi) for v, lo, hi in zip(x, op["lo"], op["hi"])):
                     f.append(fail("initial_points_inside", site_of(case), "initial-point-outside", dict(x=x)))
                     break
+        elif op["op"] == "SetInitialPoints" and not op.get("how") and r.get("pop"):
+            # the guess itself, and the other members within 5% of it coordinate-wise (+-0.05 around a zero coordinate): the limits this call asks for,
+            # whatever ranges are set at that moment (the population is clipped into them later, when the objective is decorated)
+            rad = 0.05
+            lim = [(min(v * (1 - rad), v * (1 + rad)) or -rad, max(v * (1 - rad), v * (1 + rad)) or rad) for v in op["x0"]]
+            if r["pop"][0] != [float(v) for v in op["x0"]]:
+                f.append(fail("initial_points_inside", site_of(case), "first-member-is-not-the-guess", dict(x0=op["x0"], got=r["pop"][0])))
+            else:
+                for x in r["pop"][1:]:
+                    if any(not (lo <= v <= hi) for v, (lo, hi) in zip(x, lim)):
+                        f.append(fail("initial_points_inside", site_of(case), "initial-point-outside-requested-neighbourhood", dict(x=x, x0=op["x0"])))
+                        break
     return f
 
 
@@ -633,6 +647,73 @@ def oracle_ensemble(case, out):
     return f
 
 
+# ---- C02 for the one-liner interfaces: bounds= holds for every call the wrapper makes, also for what it computes for its return value
+class _PinOut(object):
+    def __init__(self, i, c):
+        self.i, self.c = i, c
+    def __call__(self, x):
+        x = list(x); x[self.i] = self.c
+        return x
+
+
+def gen_wrapbox(rng):
+    ndim = rng.choice([2, 3])
+    lo = [rng.choice([-1.0, 0.0]) for _ in range(ndim)]
+    hi = [l + rng.choice([1.0, 2.0]) for l in lo]
+    i = rng.randrange(ndim)
+    pin = rng.choice([hi[i] + 2.0, lo[i] - 1.5, (lo[i] + hi[i]) / 2, None])     # a constraint that leaves the box, stays inside it, or none
+    return dict(kind="wrapbox", solver=rng.choice(["fmin", "fmin_powell", "diffev", "diffev2"]), ndim=ndim, npop=rng.choice([4, 6]), lo=lo, hi=hi,
+                a=[G.grid(rng, -2, 3) for _ in range(ndim)], x0=[l + (h - l) * rng.choice([0.25, 0.5, 0.75]) for l, h in zip(lo, hi)],
+                pin=None if pin is None else [i, pin], full=rng.random() < 0.8, mode=rng.choice([None, None, "tight", "clip"]),
+                maxiter=rng.choice([3, 10, 25]), seed=rng.randrange(10 ** 6))
+
+
+def run_wrapbox(case):
+    import random as _r, io, contextlib, warnings
+    import numpy as np
+    from mystic.solvers import fmin, fmin_powell, diffev, diffev2
+    with warnings.catch_warnings():
+        warnings.simplefilter("ignore")
+        with contextlib.redirect_stdout(io.StringIO()):
+            _r.seed(case["seed"]); np.random.seed(case["seed"] % (2 ** 31))
+            tag = L.new_tag(); rec = L.REG[tag] = L.Rec()
+            try:
+                cost = QuadCost(case["a"], tag)
+                kw = dict(bounds=list(zip(case["lo"], case["hi"])), maxiter=case["maxiter"], maxfun=None, full_output=1 if case["full"] else 0, disp=0, handler=False)
+                if case["pin"] is not None:
+                    kw["constraints"] = _PinOut(*case["pin"])
+                if case["mode"] == "tight":
+                    kw["tightrange"] = True
+                elif case["mode"] == "clip":
+                    kw["cliprange"] = True
+                w = case["solver"]
+                if w in ("fmin", "fmin_powell"):
+                    r = (fmin if w == "fmin" else fmin_powell)(cost, list(case["x0"]), **kw)
+                else:
+                    r = (diffev if w == "diffev" else diffev2)(cost, list(case["x0"]), npop=case["npop"], **kw)
+                if case["full"]:
+                    x, fv = [float(v) for v in np.atleast_1d(r[0])], float(np.ravel(r[1])[0])
+                else:
+                    x, fv = [float(v) for v in np.atleast_1d(r)], None
+                return dict(nstep=2, x=x, fval=fv, calls=[c[0] for c in rec.cost_calls])
+            finally:
+                L.REG.pop(tag, None)
+
+
+def oracle_wrapbox(case, out):
+    site = "wrapper:" + case["solver"]
+    if "__exception__" in out:
+        return [fail("no-crash", site, out["__exception__"], out.get("__msg__"))]
+    f = []
+    inside = lambda x: all(l <= v <= h for v, l, h in zip(x, case["lo"], case["hi"]))
+    bad = [x for x in out["calls"] if not inside(x)]
+    if bad:
+        f.append(fail("cost_never_called_outside", site, "wrapper-called-cost-outside-bounds", dict(n=len(bad), of=len(out["calls"]), first=bad[0])))
+    if out["fval"] is not None and isfinite(out["fval"]) and not inside(out["x"]):
+        f.append(fail("finite_best_inside", site, "wrapper-finite-result-outside-bounds", dict(x=out["x"], fval=out["fval"])))
+    return f
+
+
 # ---- C02 for ensembles: ranges set on the ensemble hold for every member, however the member solver was handed over
 def gen_ensbox(rng):
     ndim = rng.choice([1, 2, 2])
@@ -833,7 +914,7 @@ def coq_preamble():
 
 def make_coq_terms(mask):
     def coq_terms(case, out):
-        if "__exception__" in out or case.get("kind") in ("collapse", "ensemble", "wrapper", "ensbox", "restart") or not L.modelled(case):
+        if "__exception__" in out or case.get("kind") in ("collapse", "ensemble", "wrapper", "ensbox", "restart", "wrapbox") or not L.modelled(case):
             return []
         if sum(len(r.get("inputs", [])) for r in out.get("opres", [])) > MAX_MODEL_ITERS:
             return []      # a run of thousands of iterations (e.g. every energy infinite until the default limits): oracle only
@@ -849,7 +930,7 @@ def coq_debug(case, out, k):
 
 
 def classify(case, out):
-    if case.get("kind") in ("collapse", "ensemble", "wrapper", "ensbox", "restart"):
+    if case.get("kind") in ("collapse", "ensemble", "wrapper", "ensbox", "restart", "wrapbox"):
         tags = ["kind:" + case["kind"], "solver:" + case.get("solver", case.get("nested", "?"))]
         if case["kind"] == "wrapper" and "__exception__" not in out:
             tags += ["warnflag:%d" % out["warnflag"], "limits:%s/%s" % ("default" if case["maxiter"] is None else "given", "default" if case["maxfun"] is None else "given")]
